@@ -37,7 +37,8 @@ type Cmd struct {
 	LReady bool `json:"lready,omitempty"`
 	LEpics bool `json:"lepics,omitempty"`
 	// raw stdin override (malformed JSON, unknown keys, several values, raw UTF-8 ...)
-	Raw *string `json:"raw,omitempty"`
+	Raw    *string `json:"raw,omitempty"`
+	RawBad bool    `json:"raw_bad,omitempty"` // the raw stdin is not one well-formed, known-keys-only JSON object: must be rejected
 	// plan document
 	Plan *PlanDoc `json:"plan,omitempty"`
 	// where to start and how to spell the store
